@@ -88,6 +88,8 @@ pub fn squeeze(s: &str) -> String {
 pub fn cases(o: &mut Outcome, rng: &mut Rng, thorough: bool) {
     parts::field_cases(o, thorough);
     parts::try_cases(o, thorough);
+    parts::tuple_cases(o, thorough);
+    parts::paren_cases(o, thorough);
     let _ = rng;
 }
 
